@@ -17,3 +17,12 @@ PY
 cd /repo
 cargo kani -Z function-contracts -Z stubbing -Z unstable-options --target-dir /verif/.build/kani \
   --exact --harness dht::core_engine::verif_proofs::c02_distance_is_xor --output-format terse | tail -5
+# cold build of the native-search / replay test binary (cargo kani playback: cfg(kani) + cfg(test)) into
+# /verif/.build/kani-pb, by running one small search
+cd /verif
+python3 - <<'PY'
+import sys; sys.path.insert(0, '.')
+from lib import kani_run as K
+hit, log = K.native_search("verif_search_c09")
+print("native search binary built:", "did not run" not in (log or ""), "| hit:", hit)
+PY
